@@ -47,7 +47,7 @@ func main() {
 			os.Exit(2)
 		}
 		seed, _ := strconv.ParseInt(os.Getenv("VERIF_SEED"), 10, 64)
-		budget := 75 * time.Second
+		budget := 95 * time.Second
 		if tier == "thorough" {
 			budget = 12 * time.Minute
 		}
